@@ -258,14 +258,18 @@ func C01Scenarios(tier string) []*h.Scenario {
 		}
 		return s
 	}()
+	// the thorough tier spends its third deviation on the core worlds; the add-on worlds stay at two
+	for _, s := range []*h.Scenario{overmax, offgrid, two} {
+		s.BoundCap = 2
+	}
 	return []*h.Scenario{
-		overmax,
-		offgrid,
-		two,
 		mk("c01.fresh", 1, fresh, false),
 		mk("c01.mid", 1, mid, false),
 		mk("c01.mid.min0", 0, mid, false),
 		mk("c01.fresh.faults", 1, fresh, true),
 		mk("c01.mid.faults", 1, mid, true),
+		overmax,
+		offgrid,
+		two,
 	}
 }
